@@ -355,8 +355,12 @@ pub fn gen_refs(root: &Path, out: &mut Output) {
             let mem: Vec<String> = out
                 .used_intrinsics
                 .iter()
-                .filter(|n| n.contains("load") || n.contains("store") || n.contains("gather") || n.contains("scatter") || n.contains("stream"))
-                .map(|n| format!("({}, {})", lstr(n), n.contains("loadu") || n.contains("storeu")))
+                .filter(|n| {
+                    n.contains("load") || n.contains("store") || n.contains("gather") || n.contains("scatter") || n.contains("stream")
+                        || n.starts_with("vld") || n.starts_with("vst")
+                })
+                // NEON `vld1q_*` / `vst1q_*` are `read_unaligned` / `write_unaligned` in stdarch: no alignment requirement
+                .map(|n| format!("({}, {})", lstr(n), n.contains("loadu") || n.contains("storeu") || n.starts_with("vld1q_") || n.starts_with("vst1q_")))
                 .collect();
             text.push_str(&format!(
                 "/-- intrinsics that access memory, with whether they are the unaligned (`loadu`/`storeu`) form -/\ndef memoryIntrinsics : List (String × Bool) := [{}]\n\n",
